@@ -10,6 +10,8 @@
    under an allocation-failure oracle  F : nat -> bool  (F k = the k-th allocate() of the run throws
    std::bad_alloc) and I/O oracles carried by the operations' arguments (which phase of a read fails;
    whether a write / the fitter fails).  What is NOT modelled: knot/coefficient VALUES (C01..C15), cfitsio.
+   Operations: construction, reading constructor, read_fits(_mem), fit, write_key, remove_key, convolve, permuteDimensions, move
+   construction / assignment, ==, write_fits(_mem), evaluation, destruction.
 
    The model follows the code THAT EXISTS, parametrised by `cfg`: one boolean per proposed `fix:` commit
    (proposed_repo_patches/C20_*.diff).  `cfg_orig` is the unchanged tree, `cfg_fixed` has all of them;
